@@ -705,6 +705,12 @@ class StmtMixin:
             fr.loops.pop()
             more = self.loop_counter_changes(s, head, out) - havoc_ev if out is not None else set()
             if not more:
+                # `loop N exits [l] e`: e holds at every `return` executed inside the (arbitrary) iteration; the
+                # function's results are result/resultK, locals are in scope, old(x) is x at the iteration's start
+                for (rs_, rv_) in fr.rets[snap["rets"]:]:
+                    for cl in self.loop_clauses(s, "exits"):
+                        g = self.eval_clause(cl, rs_, results=rv_, old=iter_pre)
+                        self.oblige(rs_, "exits", "loop%d-%s" % (s.get("loop", 0), cl["label"]), g, cl.get("ln"), cl["text"])
                 break
             havoc_ev |= more
             self.exec_restore(fr, snap)
